@@ -2,6 +2,7 @@ package props
 
 import (
 	"go/token"
+	"go/types"
 	"regexp"
 	"strconv"
 	"strings"
@@ -20,6 +21,7 @@ func runC15Gaps2(c *eng.Ctx) {
 	c15gNotBefore(c)
 	c15gIssuerUsage(c)
 	c15gVerbatimRoleTTL(c)
+	c15gVerbatimRoleCopies(c)
 	c15gLegacyRoleTTL(c)
 	c15gSmallValidators(c)
 	c15gIdentityGlobs(c)
@@ -357,6 +359,149 @@ func c15gVerbatimRoleTTL(c *eng.Ctx) {
 			c15Prov(c, f, "sign-verbatim role "+fld, st, st.Val, `^field:role\.`+fld+`$`)
 		}
 		c.Floor(f, "store of the sign-verbatim role's "+fld, n, 1)
+	}
+}
+
+// ---- C15.8: the synthetic sign-verbatim role carries every constraint of the caller's role that
+// it copies, whenever that constraint is set — independent of the role's OTHER fields. For each store
+// entry.F = role.F: destination and source are the same field; and the store stays reachable when any
+// single branch on a different field of `role` is decided either way (it is cut only by tests of the
+// same source field, role == nil, or request data). The set of copied fields is tabled (floor per
+// field), so a dropped copy is seen. (Seed C15-g: the max_ttl copy moved under `if role.TTL > 0`.)
+func c15gVerbatimRoleCopies(c *eng.Ctx) {
+	f := c.Fn("pki.buildSignVerbatimRole")
+	if f == nil {
+		return
+	}
+	var role *ssa.Parameter
+	for _, p := range f.Params {
+		if eng.VarName(p) == "role" {
+			role = p
+		}
+	}
+	if role == nil {
+		c.Undecided(f, "copies of the caller's role", token.NoPos, "parameter role not found (re-read)")
+		return
+	}
+	// the field of `role` a value is read from (through at most two loads: *role.F for pointer fields)
+	srcField := func(v ssa.Value) *types.Var {
+		for d := 0; d < 3 && v != nil; d++ {
+			switch x := v.(type) {
+			case *ssa.UnOp:
+				if x.Op != token.MUL {
+					return nil
+				}
+				v = x.X
+			case *ssa.FieldAddr:
+				if x.X == ssa.Value(role) {
+					return eng.FieldVar(x)
+				}
+				return nil
+			default:
+				return nil
+			}
+		}
+		return nil
+	}
+	// the field of the synthetic role a store writes (entry.F = …, or *entry.F = … for pointer fields)
+	dstField := func(addr ssa.Value) *types.Var {
+		for d := 0; d < 2 && addr != nil; d++ {
+			switch x := addr.(type) {
+			case *ssa.UnOp:
+				if x.Op != token.MUL {
+					return nil
+				}
+				addr = x.X
+			case *ssa.FieldAddr:
+				if isAllocOf(x.X, "pki.roleEntry") || strings.HasSuffix(structTypeName(x.X.Type()), "roleEntry") {
+					if x.X != ssa.Value(role) {
+						return eng.FieldVar(x)
+					}
+				}
+				return nil
+			default:
+				return nil
+			}
+		}
+		return nil
+	}
+	// branches on a field of role: If -> field
+	condField := map[*ssa.BasicBlock]*types.Var{}
+	for _, b := range f.Blocks {
+		ifi := eng.IfOf(b)
+		if ifi == nil {
+			continue
+		}
+		var find func(v ssa.Value, d int) *types.Var
+		find = func(v ssa.Value, d int) *types.Var {
+			if v == nil || d > 4 {
+				return nil
+			}
+			if fv := srcField(v); fv != nil {
+				return fv
+			}
+			switch x := v.(type) {
+			case *ssa.BinOp:
+				if fv := find(x.X, d+1); fv != nil {
+					return fv
+				}
+				return find(x.Y, d+1)
+			case *ssa.UnOp:
+				return find(x.X, d+1)
+			case *ssa.Call:
+				if _, bi := x.Call.Value.(*ssa.Builtin); bi {
+					for _, a := range x.Call.Args {
+						if fv := find(a, d+1); fv != nil {
+							return fv
+						}
+					}
+				}
+			case *ssa.Convert:
+				return find(x.X, d+1)
+			}
+			return nil
+		}
+		if fv := find(ifi.Cond, 0); fv != nil {
+			condField[b] = fv
+		}
+	}
+	copied := map[string]int{}
+	for _, st := range eng.Stores(f, `.`) {
+		src := srcField(st.Val)
+		dst := dstField(st.Addr)
+		if src == nil || dst == nil {
+			continue
+		}
+		name := src.Name()
+		copied[name]++
+		c.Clause("R5", "C15.8")
+		if src == dst {
+			c.OK(f, "sign-verbatim role copies role."+name+" into the same field", st.Pos(), "entry."+dst.Name()+" = role."+name)
+		} else {
+			c.Violation(f, "sign-verbatim role copies role."+name+" into the same field", st.Pos(), "role."+name+" is stored into the synthetic role's "+dst.Name()+": the constraint "+name+" of the caller's role is not carried over", nil)
+		}
+		c.Clause("R2", "C15.8")
+		site := "copy of role." + name + " independent of the role's other fields"
+		bad := ""
+		for b, fv := range condField {
+			if fv == src {
+				continue
+			}
+			for si := range b.Succs {
+				if eng.Reach(eng.Query{Fn: f, Blocked: []eng.Edge{{From: b, Succ: si}}, Target: eng.IsTarget([]ssa.Instruction{st})}) == nil {
+					bad = fv.Name()
+				}
+			}
+		}
+		if bad != "" {
+			c.Violation(f, site, st.Pos(), "the copy of role."+name+" into the sign-verbatim role is only reached for one outcome of a test of role."+bad+": a role that sets "+name+" but not "+bad+" (or the other way round) loses the constraint on sign-verbatim/:role", nil)
+		} else {
+			c.OK(f, site, st.Pos(), "the store is reachable whatever the tests of the role's other fields decide")
+		}
+	}
+	c.Clause("R6", "C15.8")
+	for _, want := range []string{"TTL", "MaxTTL", "GenerateLease", "NotBeforeDuration", "NoStore", "Issuer", "BasicConstraintsValidForNonCA"} {
+		c.Floor(f, "copy of role."+want+" into the sign-verbatim role", copied[want], 1)
 	}
 }
 
